@@ -64,7 +64,7 @@ func checkC19(c *Ctx) {
 			if f == nil || f.Name() != retField || rt == nil || deref(base.Type()) != types.Type(rt) {
 				return
 			}
-			if stripConv(st.Val) == ssa.Value(res.collect) {
+			if stripConv(st.Val) == res.collect || canon(stripConv(st.Val)) == res.collect {
 				okRet = true
 			}
 		})
@@ -207,72 +207,90 @@ func (c *Ctx) checkMultiCtor(rule, name, typ string) {
 		return
 	}
 	c.sawFunc(c.fnKey(fn))
-	decl := c.funcDecl(fn)
-	info := c.typesInfo(fn)
 	key := c.fnKey(fn)
-	if decl == nil || len(decl.Type.Params.List) != 1 || len(decl.Type.Params.List[0].Names) != 1 {
+	if len(fn.Params) != 1 {
 		c.undecided(rule, key, fn.Pos(), "unexpected constructor signature")
 		return
 	}
-	param := info.Defs[decl.Type.Params.List[0].Names[0]]
-	var baseObj types.Object
-	loopOK := false
-	for _, st := range decl.Body.List {
-		rs, ok := st.(*ast.RangeStmt)
-		if !ok {
-			continue
-		}
-		xid, okX := ast.Unparen(rs.X).(*ast.Ident)
-		vid, okV := rs.Value.(*ast.Ident)
-		if !okX || !okV || info.Uses[xid] != param || len(rs.Body.List) != 1 {
-			continue
-		}
-		if _, esc := hasLoopEscape(rs.Body); esc {
-			continue
-		}
-		as, okA := rs.Body.List[0].(*ast.AssignStmt)
-		if !okA || len(as.Lhs) != 1 || len(as.Rhs) != 1 {
-			continue
-		}
-		app, okC := as.Rhs[0].(*ast.CallExpr)
-		lid, okL := as.Lhs[0].(*ast.Ident)
-		if !okC || !okL || len(app.Args) != 2 {
-			continue
-		}
-		fid, okF := app.Fun.(*ast.Ident)
-		a0, ok0 := app.Args[0].(*ast.Ident)
-		a1, ok1 := app.Args[1].(*ast.Ident)
-		if okF && fid.Name == "append" && ok0 && ok1 && info.Uses[a0] == info.Uses[lid] && info.Uses[a1] == info.Defs[vid] {
-			loopOK = true
-			baseObj = info.Uses[lid]
-		}
+	param := ssa.Value(fn.Params[0])
+	fR, fB := c.field("multi", typ, "reporters"), c.field("multi", typ, "multiBaseReporters")
+	if fR == nil || fB == nil {
+		c.missing(rule, "multi."+typ+".reporters / multiBaseReporters")
+		return
 	}
-	retOK := false
-	if last, ok := decl.Body.List[len(decl.Body.List)-1].(*ast.ReturnStmt); ok && len(last.Results) == 1 {
-		var cl *ast.CompositeLit
-		if u, isU := last.Results[0].(*ast.UnaryExpr); isU {
-			cl, _ = u.X.(*ast.CompositeLit)
+	// decided on SSA, so that range-by-value, range-by-index and classic index loops are the same thing
+	var base ssa.Value
+	gotR := false
+	instrsOf(fn, func(in ssa.Instruction) {
+		st, ok := in.(*ssa.Store)
+		if !ok {
+			return
 		}
-		if cl != nil {
-			gotR, gotB := false, false
-			for _, e := range cl.Elts {
-				if kv, isKV := e.(*ast.KeyValueExpr); isKV {
-					k, _ := kv.Key.(*ast.Ident)
-					v, _ := kv.Value.(*ast.Ident)
-					if k == nil || v == nil {
+		f, b := addrField(st.Addr)
+		if al, isAl := canon(rootOf(b)).(*ssa.Alloc); f == nil || !isAl || al.Parent() != fn {
+			return
+		}
+		switch f {
+		case fR:
+			if canon(stripConv(st.Val)) == param {
+				gotR = true
+			}
+		case fB:
+			base = stripConv(st.Val)
+		}
+	})
+	loopOK := false
+	why := "the base list is not built by one loop over all children"
+	if phi, isPhi := base.(*ssa.Phi); isPhi {
+		for _, fl := range fullIndexLoops(fn) {
+			if fl.list != accessPath(param) || phi.Block() != fl.header {
+				continue
+			}
+			lp := fl.loop
+			okEdges := true
+			var app *ssa.Call
+			for i, e := range phi.Edges {
+				if lp.Blocks[phi.Block().Preds[i]] {
+					call, isCall := e.(*ssa.Call)
+					if !isCall || !isBuiltin(call, "append") || stripConv(call.Call.Args[0]) != ssa.Value(phi) {
+						okEdges = false
 						continue
 					}
-					if k.Name == "reporters" && info.Uses[v] == param {
-						gotR = true
-					}
-					if k.Name == "multiBaseReporters" && baseObj != nil && info.Uses[v] == baseObj {
-						gotB = true
+					app = call
+				} else if !emptyPrivateSlice(e) {
+					okEdges = false
+					why = "the base list does not start empty and private"
+				}
+			}
+			if !okEdges || app == nil {
+				continue
+			}
+			_, elems, _, isApp := appendedValues(app)
+			if !isApp || len(elems) != 1 || !fl.elemOf(stripConv(elems[0])) {
+				why = "the element appended to the base list is not children[i]"
+				continue
+			}
+			every := true
+			for _, latch := range lp.Latch {
+				if !app.Block().Dominates(latch) {
+					every = false
+				}
+			}
+			exits := true
+			for b := range lp.Blocks {
+				for _, sc := range b.Succs {
+					if !lp.Blocks[sc] && b != lp.Header {
+						exits = false
 					}
 				}
 			}
-			retOK = gotR && gotB
+			if every && exits {
+				loopOK = true
+			} else {
+				why = "a child can be skipped (conditional append or early exit from the loop)"
+			}
 		}
 	}
-	c.check(loopOK && retOK, rule, key, fn.Pos(), "children = the variadic slice itself; base list = in-order append over all of it",
-		"the constructor does not keep all children in the order given (children list is not the variadic slice, or the base list is not built from every child in order)")
+	c.check(loopOK && gotR, rule, key, fn.Pos(), "children = the variadic slice itself; base list = in-order append over all of it",
+		"the constructor does not keep all children in the order given (children list is not the variadic slice, or "+why+")")
 }
